@@ -121,6 +121,13 @@ CLAIMED["C15"] = {
   "technique": "Lean 4 theorems by induction over action lists + forked differential histories",
 }
 
+CLAIMED["C13"] = {
+  "text": "Lean 4 theorems on the descriptor model L9 for every descriptor kind (pipe, stream socket, datagram socket), every initial O_NONBLOCK state, every capacity and fill level and every burst length: after register_raw's classification no wake-up can block (either MSG_DONTWAIT is used or O_NONBLOCK was set); a burst of n deliveries makes exactly n one-byte attempts; after a drain and n deliveries the reader finds at most n bytes and at least one if n > 0; a failed attempt implies a byte is already there; classification touches nothing but O_NONBLOCK on the write path. Tied to /repo by an exhaustive forked table (kind x blocking x empty/full x owned/raw x burst lengths, plus rejected registrations) with every system call on the descriptor logged through the shim, a would-block detector, real raise() bursts, bytes read back, close count and no-write-after-close, compared with the model and judged by the property monitor.",
+  "design_ref": "DESIGN.md section 6 C13",
+  "note": "Trusted: Lean kernel + audited axioms; the kernel behaviour table of Model/Pipe.lean (zero-length send per kind and fill, EAGAIN vs blocking), validated by these probes on this kernel; 'promptly' = never a call that can block (model) + a wall-clock flag in the probe; ownership / release-once of the action is C01 + C14, here observed as exactly one close() and no write after it.",
+  "technique": "Lean 4 theorems over all descriptor states + exhaustive forked syscall-trace table",
+}
+
 NOT_YET = {}
 ALL = ["C%02d" % i for i in range(1, 19)]
 
